@@ -485,6 +485,8 @@ def _exec_accsweep(doc, res):
         # ... every number of a text input replaced by small numbers around the powers of two (prefix lengths, ages,
         # percentages): still a plain valid-looking input, so the round trip must serialise identically
         if wirefault.is_text(raw):
+            # every token of a text input emptied (its separators stay): still a plain input
+            plan += [[start, length, 'empty'] for start, length in _value_spans(raw)]
             import re
             for match in list(re.finditer(rb'(?<![0-9A-Za-z.:])\d{1,9}(?:\.\d{1,6})?(?![0-9A-Za-z.:])', raw))[:12]:
                 plan += [[match.start(), match.end() - match.start(), 'n%d' % number] for number in NUMBER_SWEEP]
@@ -502,6 +504,8 @@ def _exec_accsweep(doc, res):
         strict = False
         if name == 'asis':
             fill, strict = b'', True
+        elif name == 'empty':
+            fill = b''
         elif name.startswith('n') and name[1:].isdigit():
             fill, strict = name[1:].encode(), True
         elif name.startswith('t') and len(name) > 1 and all(c in '0123456789abcdef' for c in name[1:]):
